@@ -42,6 +42,7 @@
 #include "ace_time/testing/FakeMillis.h"
 #include "ace_time/testing/FakeClock.h"
 #include "ace_time/testing/TestableSystemClockLoop.h"
+#include "ace_time/testing/ValidationDataType.h"
 
 #include "ace_time/common/DateStrings.cpp"
 #include "ace_time/LocalDate.cpp"
